@@ -499,6 +499,8 @@ def check(rep, tier):
     walkerdep.obligations(rep, tier, 'C14')
     from vlib import userdep
     userdep.obligations(rep, tier, 'C14', which=('info',))
+    from vlib import fetchdep
+    fetchdep.obligations(rep, tier, 'C14')
     rep.dropped = 'method bodies read with ast.parse; nested visitor closures executed by pysym'
     rep.assume('C13 walker contract (every comparison is shown to the collecting visitor)', 'execution semantics of ApplyPredictorStep as documented in steps.py')
     rep.trust('pysym executor')
